@@ -740,7 +740,7 @@ func init() {
 				}
 			}
 		}
-		us = append(us, coldUnits(tier, "uePolicyContainer", "uepolicy", "shared-parse")...)
+		us = append(us, coldUnits(tier, "uePolicyContainer", "uepolicy", "shared-parse", "uepolicy-result", "bad-input")...)
 		us = append(us, coldEntryUnits(tier, "uePolicyContainer", "uepolicy")...)
 		return us
 	}
